@@ -253,7 +253,7 @@ def consume_once(repo, res, canon, rule):
     outside = [g for g, call, sp, ex in callers if g.qual != 'Monitor.run']
     fr = Frame(col)
     read = E.reads_in(repo, col, set(LISTS))
-    for L in sorted(read):
+    for L in sorted(LISTS):
         clears = [n for f, n in E.clear_sites(repo, L) if f is col]
         what = 'collate_events consumes %s' % L
         if not outside:
